@@ -77,8 +77,11 @@ theorem progress {cfg : Cfg} {s : St} (hsz : 2 ≤ cfg.size) (hb : Basic cfg s) 
   | .got => exact ⟨.cNext, rfl, by simp [step, hcs]⟩
   | .close2 => exact ⟨.cClose2, rfl, by simp [step, hcs]⟩
   | .ret =>
-    have hd := hb.ret_done hcs
-    simp [final, hcs, hd] at hnf
+    -- (earlier code, `fixJoin = false`: the terminal has returned and the filler winds down on its own)
+    have ht : s.term1 = true := hb.ret_term.mp (Or.inr hcs)
+    rcases progress_filler hsz hb (Or.inl (by simp [St.ctx1, ht])) with h | h
+    · simp [final, hcs, h] at hnf
+    · exact h
   | .join =>
     -- the close sequence waits for the filler: its ctx is cancelled, so the filler moves until it is done
     have ht : s.term1 = true := hb.ret_term.mp (Or.inl hcs)
